@@ -236,3 +236,48 @@ def x03(tier: str) -> int:
         v.sample({'op': r['op'], 'ret': r.get('ret'), 'fault': r.get('fault'),
                   'unchanged': r['pre']['rawsha'] == r['post']['rawsha']})
     return v.finish()
+
+
+def x04(tier: str) -> int:
+    v = Verdict('X04', tier)
+    thorough = tier == 'thorough'
+    v.assumptions = [
+        'not one of the listed properties: data directories and cached connections (wn/_db.py): a '
+        'call works on the database of the current wn.config.data_directory only, creates it when '
+        'absent, and refuses a wn.db written by another schema without touching it',
+        'which directories have a cached connection is read from wn._db.pool']
+    v.add_model('MC_Session (3 directories, 2 lexicons, all call sequences to depth 7)',
+                tlc_model('MC_Session'))
+    nwalk = 800 if thorough else 120
+    sim = run_tlc('MC_Session', cfg='MC_SessionWalk.cfg', workers=1, simulate=f'num={nwalk}',
+                  extra=['-depth', '30', '-seed', str(seed() + 104)], timeout=1800)
+    walks = [w for w in sim.printed() if isinstance(w, list) and w and isinstance(w[0], dict)]
+    if sim.rc != 0 or len(walks) < nwalk // 2:
+        raise MachineryError('TLC -simulate produced no behaviours:\n' + sim.out[-2000:])
+    rng = random.Random(seed() + 104)
+    jobs = [{'ops': [st['op'] for st in w], 'exp': w} for w in walks]
+    alpha = ([['setdir', d] for d in 'ABF'] + [['list'], ['query'], ['query']]
+             + [['add', l] for l in ('p:1', 'q:1', 'p:2')] + [['remove', l] for l in ('p:1', 'q:1', 'p:2')])
+    jobs += [{'ops': [rng.choice(alpha) for _ in range(20)]} for _ in range(600 if thorough else 80)]
+    res = run_driver('drv_session.py', jobs, timeout=3000)
+    recs = []
+    for j, r in zip(jobs, res):
+        if r is None or 'recs' not in r:
+            recs.append({'timeout': True, 'op': ['?']})
+            continue
+        for k, rec in enumerate(r['recs']):
+            if 'exp' in j:
+                rec['exp'] = {'res': j['exp'][k]['res'], 'disk': j['exp'][k]['disk']}
+            recs.append(rec)
+    for k, r in enumerate(recs, 1):
+        r['id'] = k
+    j = tlc_judge('Judge_Session', recs, cfg='Judge.cfg', shards=NCPU)
+    v.add_judgement('Judge_Session', j, {r['id']: r for r in recs},
+                    nontrivial=sum(1 for r in recs if r.get('pre') != r.get('post')))
+    v.cov['tlc_simulated_behaviours'] = len(walks)
+    v.cov['rule'] = ('behaviours simulated by TLC from MC_Session replayed in one process, plus random '
+                     'histories (also removing by bare id, adding a second version); non-trivial = the '
+                     'directories or the connection pool changed')
+    for r in recs[2:4]:
+        v.sample({'op': r.get('op'), 'cur': r.get('cur'), 'res': r.get('res')})
+    return v.finish()
